@@ -159,6 +159,21 @@ def r1_keys(ctx, chk, rule="C12.1"):
         chk.violation(rule, f.where(Li.node), "the mode loop runs over `%s`; specification: pruned first, then unpruned ([True, False])" % show(Li.source), expected="[True, False]",
                       found=show(Li.source), construct="run_games mode list")
         return None
+    if Li.has_break and not (Lo.has_break or Lo.has_return or Li.has_return) and Lo.whole:
+        # the mode loop is left early, but only after the entry of the mode that is skipped has been written by hand
+        brs = [b for b in ast.walk(Li.node) if isinstance(b, ast.Break)]
+
+        def _records_before(b):
+            blk = getattr(b, "parent", None)
+            for fld in ("body", "orelse"):
+                lst = getattr(blk, fld, None)
+                if isinstance(lst, list) and b in lst:
+                    return any(isinstance(st_, ast.Assign) and any(isinstance(t_, ast.Subscript) and isinstance(t_.value, ast.Name) and t_.value.id == s.res_var for t_ in st_.targets)
+                               for st_ in lst[:lst.index(b)])
+            return False
+        if brs and all(_records_before(b) for b in brs):
+            chk.undecided(rule, f.where(Li.node), "the mode loop is left with `break` after an entry was recorded by hand in the same block: that both entries of every game exist is not decided")
+            return None
     if Lo.has_break or Li.has_break or Lo.has_return or Li.has_return or not Lo.whole:
         chk.violation(rule, f.where(Lo.node), "a loop of run_games can be left early (break / continue / return): later games or modes get no entry", expected="every game, both modes",
                       found="early exit", construct="run_games early exit")
@@ -378,6 +393,7 @@ def r3_isolation(ctx, chk, rec_t, rule="C12.3"):
                     in_values.add(y)
     leaves(norm)
     control_only = []
+    mode_carried = []
     for t in C02._sub(norm):
         if t[0] == "acc" and t[1] in (Li.id, Lo.id) and t[2] not in allowed:
             if t not in in_values and _flag_var(s) is None and t[2] not in ("name", "game"):
@@ -389,10 +405,22 @@ def r3_isolation(ctx, chk, rec_t, rule="C12.3"):
                 continue
             if t[2] == "name" or t[2] == "game":
                 continue
+            if t[1] == Li.id and is_const(Li.init.get(t[2], t)):
+                # set afresh for every game and carried from the pruned to the unpruned run of that game only (a solution that is
+                # reused when pruning changes nothing): nothing comes from another game; whether the reuse is right is not decided here
+                if t not in mode_carried:
+                    mode_carried.append(t)
+                continue
             bad.append(t)
     if bad:
         chk.violation(rule, f.where(Li.node), "an entry records `%s`, whose value can come from an earlier game or mode (it is not re-established in every iteration): a failing game reports its predecessor's results" % show(bad[0]),
                       expected="defaults None/0 set inside the mode loop", found=show(bad[0]), construct="run_games loop-carried record value %s" % bad[0][2])
+    elif mode_carried and _reuse_on_probabilities_only(s, mode_carried[0], norm):
+        chk.violation(rule, f.where(Li.node), "the unpruned entry takes over `%s`, the pruned run's solution, whenever no state has probability 0: pruning also clears the states that no "
+                      "remaining transition reaches (after Player 1 is restricted), and those have a positive probability - their unpruned values differ" % show(mode_carried[0]),
+                      expected="the unpruned game solved on its own", found=show(mode_carried[0]), construct="run_games loop-carried record value %s" % mode_carried[0][2])
+    elif mode_carried:
+        chk.undecided(rule, f.where(Li.node), "an entry of the unpruned run can record `%s`, a value of the same game's pruned run (re-set for every game): whether it may be reused there is not decided" % show(mode_carried[0]))
     elif getattr(s, "set_flag_flaw", None):
         chk.violation(rule, f.where(Li.node), s.set_flag_flaw[0], expected="the same key added and looked up", found=show(s.set_flag_flaw[1]),
                       construct="run_games failed-set key mismatch")
@@ -404,6 +432,44 @@ def r3_isolation(ctx, chk, rec_t, rule="C12.3"):
         chk.undecided(rule, f.where(Li.node), "the carried variable `%s` decides what an entry records and is not recognised as the had-solution flag of the current game" % show(control_only[0]))
     else:
         chk.ok(rule, f.where(Li.node), "no recorded value has a reaching definition from an earlier game or mode (only the result dict and the had-solution flag are carried)")
+
+
+def _reuse_on_probabilities_only(s, acc_t, norm):
+    """The conditions under which the carried solution is stored / taken over say nothing beyond "it exists", "this is the unpruned
+    run", logging, and "every probability of the pruned solution is non-zero"."""
+    Li = s.Li
+    v = acc_t[2]
+    terms = [Li.update.get(v)] + [x for x in C02._sub(norm) if x[0] == "ite" and mentions(x, lambda y: y == acc_t)]
+    conds = []
+    for t in terms:
+        if t is None:
+            continue
+        for x in C02._sub(t):
+            if x[0] == "ite":
+                conds.append(x[1])
+    if not conds:
+        return False
+    rich = False
+    probs_test = False
+    for c in conds:
+        for x in C02._sub(c):
+            if x[0] == "attr" and x[2] in ("transition_list", "players", "final_states", "rewards", "state_list", "next_states"):
+                rich = True
+            if x[0] == "call" and x[1] not in ("all", "any", "len", "bool", "min", "max", "copy.deepcopy", "isinstance", "StochasticGame", "float", "int", "abs", "round", "sum") and not x[1].startswith("logging"):
+                rich = True
+            if x[0] == "idx" and is_const(x[2]) and x[2][1] in (0, 1, 2) and mentions(x[1], lambda y: y == acc_t or (y[0] == "mcall" and y[2] in _SOLVE_NAMES[0])):
+                rich = True         # strategies / rewards are consulted as well
+            if x[0] == "idx" and x[2] == C(3):
+                probs_test = True
+        for x in C02._sub(c):
+            if x[0] == "compr" and x[1] in s.sx.loops:
+                L_ = s.sx.loops[x[1]]
+                for y in C02._sub((L_.source, L_.elt) + tuple(L_.filters)):
+                    if y[0] == "attr" and y[2] in ("transition_list", "players", "final_states", "rewards"):
+                        rich = True
+                    if y[0] == "idx" and y[2] == C(3):
+                        probs_test = True
+    return probs_test and not rich
 
 
 def _carried_control_flaw(s, control_only, norm):
@@ -612,6 +678,14 @@ def r4_failure_protocol(ctx, chk, rule="C12.4"):
     after_ = scenario(s, Li.update[flag], good, True)
     if bad is None and mentions(after_, lambda x: x[0] in ("res", "apply", "compr") or (x[0] == "acc" and x[1] != Li.id)):
         chk.undecided(rule, f.where(Li.node), "the flag `%s` after a raising solve is `%s`: it comes out of a nested loop / helper that is not resolved" % (flag, show(after_)[:100]))
+        return
+    path_dependent = (after_[0] == "ite" and not is_const(after_[1]) and isinstance(good, bool) and {after_[2], after_[3]} == {C(good), C(not good)}) or \
+        (after_[0] in ("and", "or", "not", "cmp", "truthy") and isinstance(good, bool)
+         and mentions(after_, lambda x: (x[0] == "acc" and x[1] == Li.id and x[2] != flag) or x == ("elem", Li.id)))
+    if bad is None and path_dependent:
+        # the flag flips on the path that solved; on another path of the same iteration (one that does not solve at all: a result
+        # taken over from the pruned run) it is left alone - "the solve raised" does not happen there
+        chk.undecided(rule, f.where(Li.node), "the flag `%s` after a raising solve is `%s`: the iteration has a path that does not solve at all, the protocol on it is not decided" % (flag, show(after_)[:100]))
         return
     if bad is None or bad == good:
         chk.violation(rule, f.where(Li.node), "after a raising solve the flag `%s` is `%s` (unchanged / not a constant): the unpruned entry is not marked 'not solved'" % (
